@@ -53,7 +53,12 @@ Inductive rnd :=
 | RDate (min days : Z) (stamp : bool) (p : Q)      (* DateRangeRandomizer       *)
 | RValue (v : value) (p : Q)                       (* Value-/SparseBoolRandomizer *)
 | RSample (vals : list value) (counts : option (list Z)) (p : Q)
-| RText (p : Q).                                   (* Text-/BlindTextRandomizer: oracle *)
+| RText (arg : tmpl) (p : Q).
+    (* Text-/BlindTextRandomizer.  [arg] = the declared arguments (template / sentence_count, dialect,
+       entropy, keep_first, words_per_sentence) as the call to fabulist carries them.  fabulist itself
+       is an ORACLE: it answers its arguments' echo followed by arbitrary text taken from the stream
+       (the harness's stand-in, and its wrapper around the real fabulist, prefix the answer with the
+       arguments they were called with), so passing other arguments than the declared ones is visible *)
 
 Inductive sval := SV (v : value) | SR (r : rnd).
 Definition spec := list (text * sval).              (* a Python dict, insertion order *)
@@ -120,9 +125,9 @@ Definition gen (r : rnd) (s : stream) : value * stream :=
   | RSample vals counts p =>
       let (sk, s1) := skip_value p s in
       if sk then (VNone, s1) else let (d, s2) := next s1 in (sample vals counts d, s2)
-  | RText p =>
+  | RText arg p =>
       let (sk, s1) := skip_value p s in
-      if sk then (VNone, s1) else let (d, s2) := next s1 in (VStr (dt d), s2)
+      if sk then (VNone, s1) else let (d, s2) := next s1 in (VStr (arg ++ dt d), s2)
   end.
 
 (* ------------------------------------------------------ str(int), format() *)
@@ -315,5 +320,5 @@ Definition ctor_ok (r : rnd) : bool :=
   | RRangeI lo hi p _ => pok p && (lo <? hi)
   | RRangeF lo hi p _ => pok p && negb (Qle_bool hi lo)
   | RDate _ days _ p => pok p && (0 <? days)
-  | RValue _ p | RSample _ _ p | RText p => pok p
+  | RValue _ p | RSample _ _ p | RText _ p => pok p
   end.
